@@ -48,6 +48,7 @@ var rdDefs = []string{
 	"rd = () -> {\nx = read()\nwrite(\"<\" + toa(#x) + \":\" + x + \">\")\nx\n}",
 	"rdd = (d) -> if d <= 0 {\nrd()\n} else {\nrdd(d - 1)\n}",
 	"grd = (k) -> {\ni = 0\nwhile i < k {\nyield rd()\ni = i + 1\n}\n}",
+	"rdf = (k) -> {\nn = 0\nfor l <- grd(k) {\nn = n + 1\n}\nn\n}",
 }
 
 const lineAlphabet = "abcxyz019 \t;{}[]\"\\<>:,.#-+=()%dsv"
@@ -100,7 +101,12 @@ type readStmt struct {
 
 func drawReadStmt(tp *tape.Tape) readStmt {
 	k := 1 + tp.Draw(3)
-	switch tp.Draw(10) {
+	switch tp.Draw(11) {
+	case 10: // the reading generator is consumed by a loop inside a function call (possibly several calls deep)
+		if tp.Bool() {
+			return readStmt{src: fmt.Sprintf("rdf(%d)", k), reads: k}
+		}
+		return readStmt{src: fmt.Sprintf("ga = [rdf(%d), rdf(1)]", k), reads: k + 1}
 	case 8:
 		return readStmt{src: "{\nrd()\nga = 1 / (2 - 2)\nrd()\n}", reads: 1, errAfter: true}
 	case 9:
@@ -596,7 +602,7 @@ func (C17) pure(tp *tape.Tape) core.Result {
 	}
 	for i := 0; i < nst; i++ {
 		var src string
-		switch tp.Draw(12) {
+		switch tp.Draw(13) {
 		case 10: // a program is free to rebind a built-in's name; the other built-ins must not care
 			src = []string{
 				"fromto = (a, b) -> while a <= b {\nyield a\na = a + 1\n}",
@@ -678,6 +684,10 @@ func (C17) pure(tp *tape.Tape) core.Result {
 		case 8: // fromto/elems outside a for loop just run
 			src = []string{"fromto(0, 3)", "elems([1, 2])", "indices(\"ab\")", "fromto(3, 0)"}[tp.Draw(4)]
 			r.Inc("P.generator_called_outside_for", 1)
+		case 12: // strings with multi-byte characters: as many elements and indices as # says, whatever an element looks like
+			str := []string{"é", "ab日本語", "£1", "x→y←z", "ß", "añb"}[tp.Draw(6)]
+			src = fmt.Sprintf("{\nsx = \"%s\"\nne = 0\nfor e <- elems(sx) {\nne = ne + 1\n}\nli = 0 - 1\nni = 0\nfor i <- indices(sx) {\nli = i\nni = ni + 1\n}\nwrite([ne == #sx, ni == #sx, li == #sx - 1])\n}", str)
+			r.Inc("P.elems_indices_multibyte", 1)
 		case 9: // a rendering that is kept while other values are rendered and written, then looked at again
 			if _, _, stop := step("gk = toa(" + drawValueExpr(tp, 2) + ")"); stop {
 				goto done
